@@ -278,6 +278,29 @@ fn pruning_judge(vals: &[&str], overwrite: Option<&str>) -> (Vec<Violation>, u64
             }
         }
     }
+    // two-sided ranges in both spellings (the planner folds them into one range lookup with inclusiveness flags)
+    for hi_op in ["<", "<="] {
+        for lo_op in [">", ">="] {
+            for (lo, hi) in [("1", "2"), ("1", "3"), ("1.5", "2.5"), ("2", "3"), ("1", "2.5")] {
+                for upper_first in [false, true] {
+                    let (a, b) = (format!("n.p {lo_op} {lo}"), format!("n.p {hi_op} {hi}"));
+                    let (ta, tb) = (format!("n.p + 0 {lo_op} {lo}"), format!("n.p + 0 {hi_op} {hi}"));
+                    let (prunable, twin) = if upper_first { (format!("MATCH (n) WHERE {b} AND {a} RETURN n.p"), format!("MATCH (n) WHERE {tb} AND {ta} RETURN n.p")) } else { (format!("MATCH (n) WHERE {a} AND {b} RETURN n.p"), format!("MATCH (n) WHERE {ta} AND {tb} RETURN n.p")) };
+                    let (x, y) = (exec(&db, Lang::Gql, &prunable), exec(&db, Lang::Gql, &twin));
+                    evals += 2;
+                    nonempty |= matches!(&y, Out::Rows(r) if !r.is_empty());
+                    if let Some((kind, detail)) = differ(&y, &x, false, false) {
+                        let ops = format!("{lo_op}..{hi_op}");
+                        viols.push(Violation::new(
+                            &[("layer", "pruning"), ("kind", kind), ("op", &ops), ("literal", if lo.contains('.') || hi.contains('.') { "float" } else { "int" }), ("column", column), ("pattern", if upper_first { "range-upper-first" } else { "range" }), ("overwrite", if overwrite.is_some() { "yes" } else { "no" })],
+                            json!({"engine": "ENUM/pruning", "values": vals, "overwrite": overwrite, "query": prunable, "twin": twin}),
+                            format!("p written as {vals:?}{}: {prunable} vs {twin}: {}", overwrite.map(|o| format!(" then first := {o}")).unwrap_or_default(), vcore::truncate(&detail, 300)),
+                        ));
+                    }
+                }
+            }
+        }
+    }
     (viols, evals, nonempty)
 }
 
@@ -459,7 +482,7 @@ fn run(args: vcore::Args) -> i32 {
     let space = GraphSpace { max_nodes: 2, max_edges: tier.pick(1, 2), node_kinds: kinds, edge_kinds: GraphSpace::full_edge_kinds() };
     let (graphs, _) = space.enumerate();
     let queries = all_queries(tier.pick(2, 3));
-    rep.rule = format!("part A: every graph of {:?} x (core grammar up to weight {} + 26 predicate shapes) x {{GQL, Cypher}} x 9 physical variants against the plain reference database; part A2: every sequence of 3 (quick) / 4 (thorough) writes of p from {{1, 2, 3, 1.5, 2.5, absent}} (+ every overwrite of the first) x 6 comparison operators x 6 literals x 2 patterns, the prunable predicate `n.p op lit` against its twin `n.p + 0 op lit` that min/max pruning cannot see; part B: every history up to depth {} over 10 letters (data changes, index create/drop) on one long-lived database, 6 query texts re-executed after every step, against a database rebuilt from the data operations alone; distinct non-trivial = cases / histories with a non-empty answer", space.to_json(), tier.pick(2, 3), tier.pick(4, 5));
+    rep.rule = format!("part A: every graph of {:?} x (core grammar up to weight {} + 26 predicate shapes) x {{GQL, Cypher}} x 9 physical variants against the plain reference database; part A2: every sequence of 3 (quick) / 4 (thorough) writes of p from {{1, 2, 3, 1.5, 2.5, absent}} (+ every overwrite of the first) x 6 comparison operators x 6 literals x 2 patterns (+ two-sided ranges, both spellings, 5 bound pairs), the prunable predicate `n.p op lit` against its twin `n.p + 0 op lit` that min/max pruning cannot see; part B: every history up to depth {} over 10 letters (data changes, index create/drop) on one long-lived database, 6 query texts re-executed after every step, against a database rebuilt from the data operations alone; distinct non-trivial = cases / histories with a non-empty answer", space.to_json(), tier.pick(2, 3), tier.pick(4, 5));
     part_a(&mut rep, &graphs, &queries);
     eprintln!("part A: {:.1}s", rep.elapsed_s());
     part_a2(&mut rep, tier.pick(3, 4));
